@@ -332,6 +332,7 @@ pub fn property() -> Property {
         id: "C11",
         cases,
         clauses: &["below-limit-completes", "no-timeout-completes", "above-limit-abandoned", "tie-consistent", "fail-on-timeout-terminates", "carries-on"],
+        full_rerun_check: true,
         assumptions: &[
             "handler durations are virtual sleeps; computation itself takes no virtual time (that is what 'needs less than t' means on the virtual clock)",
             "a handler that needs exactly t may complete or be abandoned (the select! tie-break is explored as a choice)",
